@@ -48,7 +48,17 @@ def generate(seed, tier):
                 edges.append([ns[:cut], ns[cut:]])
             spec = {"nodes": nodes, "edges": edges, "labels": "int"}
             return {"mode": "directed", "seed": seed, "q": q, "spec": spec, "variants": rng.randint(1, 2)}
-        return {"mode": "directed", "seed": seed, "q": q, "spec": _gen.rand_directed_spec(rng),
+        dspec = _gen.rand_directed_spec(rng)
+        if rng.random() < 0.2 and dspec["edges"]:
+            # one input hyperedge has a node on BOTH sides (the model itself produces such hyperedges; as input they are
+            # as legal as any): its two incidences count separately
+            i = rng.randrange(len(dspec["edges"]))
+            s_, t_ = dspec["edges"][i]
+            if s_[0] not in t_:
+                cand = [list(s_), list(t_) + [s_[0]]]
+                if all((set(cand[0]), set(cand[1])) != (set(a), set(b)) for a, b in dspec["edges"]):
+                    dspec["edges"][i] = cand
+        return {"mode": "directed", "seed": seed, "q": q, "spec": dspec,
                 "variants": rng.randint(1, 4)}
     if rng.random() < 0.012:
         # one hyperedge of 256-300 nodes next to small ones (sizes that only differ modulo 256, among others)
